@@ -120,6 +120,7 @@ func cmdCheck(mode string, args []string) {
 		run.Out = *verif
 	}
 	initSlots(*verif)
+	wantSiteCovers = os.Getenv("GOVC_SITE_COVERS") != "" || *tier == "thorough"
 	dirs, err := contractPackages(*repo, *prop)
 	if err != nil || len(dirs) == 0 {
 		run.fatal("no contract files mention %s under %s (hooks missing?)", *prop, *repo)
@@ -158,7 +159,7 @@ func cmdCheck(mode string, args []string) {
 	run.addTables(*prop)
 	run.addStateUnits(*prop)
 	if mode == "dump" {
-		for _, o := range run.Obls {
+		for _, o := range append(append(append([]*Oblig{}, run.Obls...), run.Covers...), run.SiteCovers...) {
 			if *oblName == "" {
 				fmt.Println(o.Name)
 				continue
